@@ -21,7 +21,7 @@ MANIFEST = {
 }
 MANIFEST["text"] += " " + (
     'Added after the seeding waves: noise settings with dist_noise_ne < dist_noise; the run with the feature on is also obtained incrementally (match the first observation, then match(all, expand=True)) for every second configuration and compared with the run without the feature.')
-BUDGET = {"quick": 600, "thorough": 3000}
+BUDGET = {"quick": 900, "thorough": 3000}
 RULE = ("states = lattice columns compared (two per observation), transitions = implementation runs, traces validated = pairs whose "
         "'off' side was also compared with the all-walks reference; non-trivial = the two runs differ (index, probability or a "
         "non-emitting state on the best path); outcomes = (index off, index on, sign of the probability difference).")
